@@ -13,6 +13,9 @@ import (
 
 // BatchItem is one complete application plus its input: exactly one of the three kinds is set.
 type BatchItem struct {
+	// full is the item's complete argument vector, built once: every rebuild of the application, sequential or
+	// concurrent, is given this very slice (the library must treat the caller's vector as read-only)
+	full  []string
 	Parse *ParseCase `json:"parse,omitempty"`
 	Tree  *TreeCase  `json:"tree,omitempty"`
 	Value *ValueCase `json:"value,omitempty"`
@@ -76,7 +79,7 @@ func runItem(i int, it *BatchItem) (rec string) {
 	}()
 	switch {
 	case it.Parse != nil:
-		RunRealInner(&out, it.Parse.D, it.Parse.SpecStr, it.Parse.Argv, envPrefixOf(i))
+		runRealFull(&out, it.Parse.D, it.Parse.SpecStr, it.full, envPrefixOf(i), false)
 	case it.Tree != nil:
 		var to TreeOutcome
 		to.Binds = map[string]map[string][]string{}
@@ -129,6 +132,9 @@ func CheckC20(c *BatchCase, st *Stats) *Violation {
 	// with package-level default slices): every rebuild, sequential or concurrent, is declared with the same slice objects.
 	// The first sequential pass creates them; later passes only read the table.
 	for i := range c.Items {
+		if p := c.Items[i].Parse; p != nil {
+			c.Items[i].full = append([]string{"app"}, p.Argv...)
+		}
 		if v := c.Items[i].Value; v != nil {
 			v.ShareDefaults = true
 			v.persist = sharedSlices{}
